@@ -126,10 +126,45 @@ def check(which, tier, also):
     return 1 if bad else 0
 
 
+def reverify(which):
+    """Re-confirm stored seeded changes against the CURRENT /repo: patch applies, 148 tests pass with
+    it, demo exits 1 with and 0 without the patch."""
+    ids = sorted(p.name for p in SEEDED.iterdir() if p.is_dir()) if which == "all" else [which]
+    bad = 0
+    t_un = scratch()
+    try:
+        for sid in ids:
+            d = SEEDED / sid
+            meta = json.loads((d / "meta.json").read_text())
+            try:
+                t_pa = scratch(d / "patch.diff")
+            except RuntimeError as e:
+                print(f"FAIL {sid}: {e}")
+                bad += 1
+                continue
+            try:
+                tests = run_tests(t_pa)
+                w = run_demo(t_pa, d / "demo.py")
+                wo = run_demo(t_un, d / "demo.py")
+            finally:
+                shutil.rmtree(t_pa, ignore_errors=True)
+            head = subprocess.run(["git", "-C", "/repo", "log", "--format=%h", "-1"], capture_output=True, text=True).stdout.strip()
+            ok = tests[0] == 0 and "148 passed" in tests[1] and w[0] == 1 and wo[0] == 0
+            meta["reconfirmed"] = {"repo_head": head, "tests_with_patch": tests[1], "demo_exit_with_patch": w[0], "demo_exit_without_patch": wo[0], "ok": ok}
+            (d / "meta.json").write_text(json.dumps(meta, indent=1, ensure_ascii=False) + "\n")
+            print(f"{'ok  ' if ok else 'FAIL'} {sid} tests={tests[1]!r} demo_with={w[0]} demo_without={wo[0]}", flush=True)
+            bad += not ok
+    finally:
+        shutil.rmtree(t_un, ignore_errors=True)
+    return 1 if bad else 0
+
+
 if __name__ == "__main__":
     a = sys.argv[1:]
     if a[0] == "intake":
         sys.exit(intake(a[1], a[2], a[3]))
+    if a[0] == "reverify":
+        sys.exit(reverify(a[1] if len(a) > 1 else "all"))
     also = []
     if "--also" in a:
         i = a.index("--also")
